@@ -25,7 +25,7 @@ INV = ("PInBounds", "POnlyDocumentedError", "DeLeavesModeAsFound")
 def de_records(tier, tmp, progs, types):
     recs, stats = [], {"states": 0, "transitions": 0, "runs": []}
     light = tier == "quick"
-    sel = progs if tier == "thorough" else progs[(int(__import__("os").environ.get("VERIF_SEED", "0")) % 3)::3]
+    sel = progs if tier == "thorough" else progs[(int(__import__("os").environ.get("VERIF_SEED", "0")) % 4)::4]
     r1, s1 = collect(tier, tmp, sel, types, "hostile", rich=False, invariants=INV, properties=("PDModeRestored",), tag="ho", light=light)
     r2, s2 = collect(tier, tmp, progs, types, "bytes", rich=False, maxbytes=3 if light else 4, invariants=INV, properties=("PDModeRestored",), tag="by")
     for s, name in ((s1, "hostile"), (s2, "bytes")):
@@ -91,7 +91,7 @@ def run(tier, corrupt=False):
             ctypes = {**types, **{p["name"]: {"kind": "struct", "dir": p["dir"], "code": p["code"]} for p in progs if p["kind"] == "struct"}}
             gen = Gen(ctypes, rng)
             idx = {p["name"]: i + 1 for i, p in enumerate(progs)}
-            per = 4 if tier == "quick" else 25
+            per = 3 if tier == "quick" else 25
             scases = [{"kind": "ser", "prog": p["name"], "san0": False, "fuel": -1, "obj": gen.obj(p["code"], p["name"]), "salt": k} for p in accepted for k in range(per)]
             imp2, sres = run_drivers_parallel(src, wt, accepted, types, scases)
             vcases = []
